@@ -290,6 +290,9 @@ pub fn denote(pos: &Pos, legal: &[RMove], ml: &MoveLike) -> Denot {
             Denot::known(by_coords(legal, *src, *dst, *promo), true)
         }
         MoveLike::UciNull => Denot::known(vec![], true),
+        MoveLike::Unchecked(m) | MoveLike::TryUnchecked(m) => {
+            Denot::known(legal.iter().copied().filter(|x| x == m).collect(), true)
+        }
         MoveLike::SanMove { data, .. } => denote_san_data(pos, legal, data),
         MoveLike::UciStr(s) => match parse_known_uci(s) {
             Some(Some((src, dst, promo))) => Denot::known(by_coords(legal, src, dst, promo), true),
